@@ -98,6 +98,7 @@ type c03batch struct {
 	asArgs  bool // strings are constructor arguments of one service each, instead of parameter values
 	fnA     bool // a function named `a` is registered
 	law     bool // strings are %-doubled forms: each must evaluate to origs[i]
+	rawBOM  bool // the strings come first in the file and every U+FEFF in them is written raw (see text)
 	origs   []string
 }
 
@@ -113,7 +114,14 @@ func (b *c03batch) config(keep func(i int) bool) *cfg.Config {
 	if b.fnA {
 		c.Meta.Functions = []cfg.KS{{K: "a", V: "pa.FnEcho"}}
 	}
-	c.Params = c03Targets()
+	if !b.rawBOM {
+		c.Params = c03Targets()
+	}
+	defer func() {
+		if b.rawBOM {
+			c.Params = append(c.Params, c03Targets()...)
+		}
+	}()
 	for i, s := range b.strs {
 		if keep != nil && !keep(i) {
 			continue
@@ -125,6 +133,19 @@ func (b *c03batch) config(keep func(i int) bool) *cfg.Config {
 		}
 	}
 	return c
+}
+
+// text is the YAML of a batch configuration. With rawBOM every U+FEFF of the (backslash-free) strings is written as the
+// character itself instead of the escape the writer uses everywhere else: inside a quoted scalar it is content, not a byte order
+// mark. Only this one small batch does so, with the strings in the first 400 bytes of the file: the YAML library the tool uses
+// fails on a raw U+FEFF that ends 2 bytes before a 512-byte boundary of its read buffer (DESIGN, round 13), which is not
+// gontainer's code and not what this check is about.
+func (b *c03batch) text(conf *cfg.Config) string {
+	y := conf.YAML()
+	if b.rawBOM {
+		y = strings.ReplaceAll(y, `\ufeff`, "\ufeff")
+	}
+	return y
 }
 
 // refVerdict: "accept", "reject" (pattern level, reported in the Compile step), "badgo" (call arguments are
@@ -229,6 +250,15 @@ func checkC03(c *Ctx) error {
 			batches = append(batches, &c03batch{id: fmt.Sprintf("q%03d", i/500), strs: doubled[i:j], law: true, origs: randStrs[i:j], asArgs: true})
 		}
 	}
+	// a raw U+FEFF inside a scalar is a character of the string like any other (round 13, S242)
+	{
+		bo := []string{"a\ufeffb", "\ufeff", "x%\ufeffy%z", "\ufeff\ufeff%", "é\ufeff日", "%\ufeff%"}
+		var bd []string
+		for _, s := range bo {
+			bd = append(bd, strings.ReplaceAll(s, "%", "%%"))
+		}
+		batches = append(batches, &c03batch{id: "bom0", strs: bd, law: true, origs: bo, rawBOM: true})
+	}
 	c.Set("random_unicode_strings", nRand)
 	// ---- pass 1: rejected sets
 	type p1 struct {
@@ -239,7 +269,7 @@ func checkC03(c *Ctx) error {
 	Par(len(batches), 16, func(bi int) {
 		b := batches[bi]
 		dir := w.TempDir("c03")
-		yaml := b.config(func(i int) bool { return b.refVerdict(b.strs[i]) != "unjudged" }).YAML()
+		yaml := b.text(b.config(func(i int) bool { return b.refVerdict(b.strs[i]) != "unjudged" }))
 		_ = work.WriteFile(filepath.Join(dir, "in.yaml"), []byte(yaml))
 		out := filepath.Join(dir, "out.go")
 		run := cli.Do(w, "", nil, dir, out, "build", "-i", "in.yaml", "-o", out)
@@ -303,7 +333,7 @@ func checkC03(c *Ctx) error {
 				ops = append(ops, probe.Op{Op: "param", Name: b.name(i)})
 			}
 		}
-		u := &probe.Unit{ID: "c" + b.id, Cfg: conf, Files: []probe.File{{Name: "gontainer.yaml", Content: conf.YAML()}}, Ops: ops}
+		u := &probe.Unit{ID: "c" + b.id, Cfg: conf, Files: []probe.File{{Name: "gontainer.yaml", Content: b.text(conf)}}, Ops: ops}
 		units = append(units, u)
 		unitBatch[u.ID] = b
 	}
